@@ -70,6 +70,17 @@ class VRegChain(Component):
     def up_r2(): s.out <<= s.r
 
 
+class VOnce(Component):
+  """not a pure RTL design (an update_once block): the tick has no leading combinational pass, the dump shows the
+  values the signals hold when the tick starts"""
+  def construct(s):
+    s.in_ = InPort(3); s.out = OutPort(3); s.cnt = OutPort(2)
+    @update_once
+    def up_once(): s.out @= s.in_ ^ 5
+    @update_ff
+    def up_cnt(): s.cnt <<= s.cnt + 1
+
+
 class VMany(Component):
   """more nets than there are one-character VCD identifiers (94); only a few of the inputs are driven"""
   def construct(s):
@@ -81,4 +92,4 @@ class VMany(Component):
 # ports driven symbolically (default: every top-level input)
 SYMBOLIC_PORTS = {'VMany': ['s.in_[0]', 's.in_[97]']}
 
-DESIGNS = {'VMany': VMany, 'VInc': VInc, 'VReg': VReg, 'VStruct': VStruct, 'VHier': VHier, 'VRegChain': VRegChain}
+DESIGNS = {'VMany': VMany, 'VOnce': VOnce, 'VInc': VInc, 'VReg': VReg, 'VStruct': VStruct, 'VHier': VHier, 'VRegChain': VRegChain}
